@@ -66,7 +66,7 @@ func genSimpleGroup(g *vlib.G) {
 		cfg := smallCfg(k, 2, []float64{1}, false, "U2 w{1} mixed node values")
 		cfg.mixed = true
 		genSimple(g, cfg, 0, heavy)
-		if g.Thorough() {
+		if g.Thorough() && !k.directed() {
 			cfg := smallCfg(k, 3, []float64{1}, false, "U3 w{1} mixed node values")
 			cfg.mixed = true
 			genSimple(g, cfg, 0, heavy)
@@ -157,7 +157,7 @@ func genMultiGroup(g *vlib.G) {
 		cfg.mixed = true
 		genMulti(g, cfg, 0, 0, heavy)
 		if g.Thorough() {
-			cfg := multiCfgOf(k, "U2 all pairs L{0} mixed node values", u2, allPairs(u2), l1, w1)
+			cfg := multiCfgOf(k, "U2 pairs{01,10} L{0} mixed node values", u2, [][2]int64{{0, 1}, {1, 0}}, l1, w1)
 			cfg.mixed = true
 			genMulti(g, cfg, 0, 0, heavy)
 		}
